@@ -42,6 +42,7 @@ SELFTEST = [
     {"mutation": "new mesh insertion in handle_ihave", "caught_by": "sites/mesh insertion sites are the audited ones"},
     {"mutation": "on_connection_closed: `mesh_peers.remove(&peer_id)` deleted", "caught_by": "sites/mesh removal sites are the audited ones"},
     {"mutation": "heartbeat retain: `peer_score < 0.0` -> `peer_score < -10.0`", "caught_by": "remove/heartbeat drops members with negative score"},
+    {"mutation": "NEUTRAL: median / peers_by_score / scores / to_prune_topics / to_graft / to_prune renamed", "caught_by": "(silent: resolved through upvars, accumulator shape and call positions)"},
 ]
 
 # one-edit source variants for the thorough-tier sensitivity self-test (vrules/selftest.py); each must be reported
@@ -91,7 +92,7 @@ def score_of(prog, body, e, peer_ok):
     g = m[2][0]
     if g[0] != "call" or not re.search(r"HashMap::get$", strip_generics(g[1])) or not peer_ok(g[2][1]):
         return False
-    if not re.search(r"scores$", render(g[2][0])):
+    if g[2][0][0] not in ("upvar", "local", "arg"):      # the per-heartbeat score cache (a plain binding, whatever it is called)
         return False
     cl = gs.closure_arg(prog, body, m)
     rs = [render(x) for _, x in gs.ret_exprs(cl)] if cl is not None else []
@@ -123,8 +124,9 @@ def classify(prog, body, reqs, peer_ok, topic_ok, res):
                 small, large, strict = rel
                 if is_zero_f(small) and score_of(prog, body, large, peer_ok):
                     got["score"] = "score(p) %s 0.0" % (">" if strict else ">=")
-                elif strict and score_of(prog, body, large, peer_ok) and small[0] == "upvar" and small[1].lstrip("*") == "median":
-                    got["score>median"] = "score(p) > median"
+                elif strict and score_of(prog, body, large, peer_ok) and small[0] == "upvar":
+                    got["score>median"] = "score(p) > " + small[1].lstrip("*")
+                    got["median-upvar"] = small[1].lstrip("*")
     return got
 
 
@@ -165,7 +167,8 @@ def check(ctx):
     gr = ctx.body(G, r"^libp2p_gossipsub::behaviour::get_random_peers$")
     rr = [x for _, x in gs.ret_exprs(gr)]
     ok = len(rr) == 1 and rr[0][0] == "call" and re.search(r"get_random_peers_dynamic$", strip_generics(rr[0][1])) and \
-        [render(a) for a in (rr[0][2][0], rr[0][2][1], rr[0][2][3])] == ["connected_peers", "topic_hash", "f"]
+        gs.is_arg(rr[0][2][0], gs.arg_of_type(gr, r"HashMap<libp2p_identity::PeerId, types::PeerDetails>")) and \
+        gs.is_arg(rr[0][2][1], gs.arg_of_type(gr, r"^&topic::TopicHash$")) and gs.is_arg(rr[0][2][3], gs.arg_of_type(gr, r"FnMut\(&"))
     ctx.ob("source", "get_random_peers delegates (connected_peers, topic, f) unchanged", ok, _loc(gr), render(rr[0])[:200] if rr else "?")
     rets = gs.ret_exprs(gd)
     ctx.floor("source", "get_random_peers_dynamic results", rets, 2)
@@ -181,19 +184,24 @@ def check(ctx):
         ie = gd.init_expr(coll)
         flt = gs.calls(ie, r"Iterator::filter$")
         facts = {}
+        d_conn, d_topic, d_f = (gs.arg_of_type(gd, r"HashMap<libp2p_identity::PeerId, types::PeerDetails>"), gs.arg_of_type(gd, r"^&topic::TopicHash$"), gs.arg_of_type(gd, r"FnMut\(&"))
         for fc in flt:
             cl = gs.closure_arg(prog, gd, fc, 1)
             if cl is None:
                 continue
+            ups = gs.upvar_exprs(prog, gd, cl)
+
+            def up_is(x, idx, ups=ups):
+                return x[0] == "upvar" and gs.is_arg(ups.get(x[1].lstrip("*"), ("?",)), idx)
             for c, pol in gs.truth_requirements(cl):
                 r = render(c) if c[0] != "variant" else ""
-                if re.match(r"^std::collections::BTreeSet::contains\(arg2\.1\.topics, \^\*?topic_hash\)$", r) and pol:
+                if c[0] == "call" and re.match(r"^std::collections::BTreeSet::contains\(arg2\.1\.topics, ", r) and up_is(c[2][1], d_topic) and pol:
                     facts["subscribed"] = r
                 if re.match(r"^libp2p_gossipsub::types::PeerKind::is_gossipsub\(arg2\.1\.kind\)$", r) and pol:
                     facts["gossipsub"] = r
-                if re.match(r"^std::ops::FnMut::call_mut\(\^\*?f, tuple\{0: arg2\.0\}\)$", r) and pol:
+                if c[0] == "call" and re.search(r"FnMut::call_mut$", strip_generics(c[1])) and up_is(c[2][0], d_f) and render(c[2][1]) == "tuple{0: arg2.0}" and pol:
                     facts["caller filter"] = r
-        src_ok = any(render(c[2][0]) == "connected_peers" for c in gs.calls(ie, r"HashMap::iter$"))
+        src_ok = any(gs.is_arg(c[2][0], d_conn) for c in gs.calls(ie, r"HashMap::iter$"))
         ctx.ob("source", "get_random_peers: candidates are connected peers", src_ok, _loc(gd), render(ie)[:120])
         ctx.ob("source", "get_random_peers: only peers subscribed to the topic", "subscribed" in facts, _loc(gd), facts.get("subscribed", "filter `p.topics.contains(topic_hash)` not found"))
         ctx.ob("source", "get_random_peers: only gossipsub peers", "gossipsub" in facts, _loc(gd), facts.get("gossipsub", "filter `p.kind.is_gossipsub()` not found"))
@@ -293,16 +301,26 @@ def check(ctx):
         if got is not None and "score" not in got and "score>median" in got:
             head = gs.next_call_bb(recv)
             ok = bool(retain) and head is not None and all(hb.must_pass_nodes([head], [m.bb], [r.bb]) or hb.must_pass_nodes(gs.some_edge_targets(hb, head), [m.bb], [r.bb]) for r in retain[:1])
-            ml = [k for k, v in hb.names.items() if v == "median"]
+            # the threshold is whatever local the selection closure captured (resolved through the upvar, not by name)
+            sel = [c for c in gs.calls(gs.expand(hb, me[2][-1]), r"behaviour::get_random_peers$")]
+            clm = gs.closure_arg(prog, hb, sel[0], 3) if sel else None
+            mu = gs.upvar_exprs(prog, hb, clm).get(got["median-upvar"]) if clm is not None else None
+            ml = [mu[1]] if mu is not None and mu[0] == "local" else []
             med_ok = False
             if len(ml) == 1:
                 med_ok = True
+                vecs, maps = set(), set()
                 for d in hb.defs.get(ml[0], []):
                     e = hb.rvalue_expr(d[3]) if d[0] == "stmt" else hb.call_expr(d[3], d[1])
                     gets = gs.calls(e, r"HashMap::get$")
-                    med_ok = med_ok and bool(gets) and all(render(g[2][0]) == "scores" and gs.has_call(g[2][1], r"slice::<impl \[T\]>::get$|slice::get$") and "peers_by_score" in render(g[2][1]) for g in gets)
-                pbs = [k for k, v in hb.names.items() if v == "peers_by_score"]
-                med_ok = med_ok and len(pbs) == 1 and re.search(r"collect\(std::collections::BTreeSet::iter\(", gs.xrender(hb, ("local", pbs[0], "peers_by_score"))) is not None
+                    med_ok = med_ok and bool(gets) and all(g[2][0][0] == "local" and gs.has_call(g[2][1], r"slice::<impl \[T\]>::get$|slice::get$") for g in gets)
+                    for g in gets:
+                        maps.add(render(g[2][0]))
+                        vecs |= {y[1] for y in mir.walk(g[2][1]) if y[0] == "local" and "Vec<" in hb.locals[y[1]]}
+                # one score cache, one member vector; the vector is the current members of this mesh
+                med_ok = med_ok and len(maps) == 1 and len(vecs) == 1 and \
+                    re.search(r"collect\(std::collections::BTreeSet::iter\(", gs.xrender(hb, ("local", next(iter(vecs)), None))) is not None and \
+                    gs.next_call_bb(gs.expand(hb, hb.init_expr(next(iter(vecs))))) == head
             ctx.ob("eligible", "%s: `score > median` implies non-negative (median over members that survived the negative-score retain)" % tag, ok and med_ok, m.loc(),
                    "retain of negative members dominates in the iteration: %s; median is computed from cached scores of current members only: %s" % (ok, med_ok))
 
@@ -348,7 +366,7 @@ def check(ctx):
                "insert only on the false edge of `mesh[topic].len() >= mesh_n_high_for_topic(topic)`" if ok else
                "insert not dominated by a strict `len < mesh_n_high` edge" + (" — only `len > mesh_n_high` guards it, which admits mesh_n_high + 1 members" if weak else ""))
         at = lib.at_limit_edges(hg, cnt, lim)
-        prune_ins = [x for x in hg.call_sites(r"HashSet::insert$") if render(hg.site_expr(x)[2][0]) == "to_prune_topics"]
+        prune_ins = gs.refusal_inserts(hg, head) if head is not None else []
         got = lib.count_range(hg, gs.edge_targets(at), [head], lib.bbs(prune_ins)) if at and head is not None else None
         ctx.ob("limit", "handle_graft: a GRAFT refused for a full mesh is answered with a PRUNE entry", got == (1, 1), m.loc(), "to_prune_topics.insert on the len >= mesh_n_high edge: %s" % (got,))
         reg = hg.reachable(gs.edge_targets(at), stop_nodes=[head]) if at and head is not None else {m.bb}
@@ -402,9 +420,10 @@ def check(ctx):
     rp = ctx.body(G, gs.BEH + r"remove_peer_from_mesh$")
     for m in removers.get(rp.npath, []):
         me = rp.site_expr(m)
-        some = lib.switch_edges_on(rp, r"^discr\(std::collections::HashMap::get_mut\(self\.mesh, topic_hash\)\)$", {"Some"})
+        rp_t, rp_p = gs.argname(rp, gs.arg_of_type(rp, r"^&topic::TopicHash$")), gs.arg_of_type(rp, r"^&libp2p_identity::PeerId$")
+        some = lib.switch_edges_on(rp, r"^discr\(std::collections::HashMap::get_mut\(self\.mesh, %s\)\)$" % re.escape(rp_t), {"Some"})
         got = lib.count_range(rp, gs.edge_targets(some), rp.return_blocks(), [m.bb]) if some else None
-        ok = got == (1, 1) and render(me[2][1]) == "peer_id" and render(me[2][0]) == "std::collections::HashMap::get_mut(self.mesh, topic_hash)@Some.0"
+        ok = got == (1, 1) and gs.is_arg(me[2][1], rp_p) and render(me[2][0]) == "std::collections::HashMap::get_mut(self.mesh, %s)@Some.0" % rp_t
         ctx.ob("remove", "remove_peer_from_mesh removes the peer whenever the topic has a mesh", ok, m.loc(), "peers.remove(peer_id) on the Some edge: %s" % (got,))
     hp = ctx.body(G, gs.BEH + r"handle_prune$")
     for fn, body in (("handle_prune", hp), ("handle_received_subscriptions", hs)):
@@ -417,9 +436,9 @@ def check(ctx):
             got = lib.count_range(body, some, [head], [c.bb]) if some else None
             ctx.ob("remove", "%s: one remove_peer_from_mesh per (peer, topic)" % fn, got == (1, 1), c.loc(), "per loop element: %s" % (got,))
             if fn == "handle_prune":
-                ctx.ob("remove", "handle_prune: removes the pruning peer from the pruned topic", render(ce[2][1]) == "peer_id" and head is not None, c.loc(), render(ce)[:200])
+                ctx.ob("remove", "handle_prune: removes the pruning peer from the pruned topic", gs.is_arg(ce[2][1], gs.arg_of_type(body, r"^&libp2p_identity::PeerId$")) and head is not None, c.loc(), render(ce)[:200])
                 src = gs.expand(body, body.site_expr(mir.Site(body, head))[2][0]) if head is not None else ("unknown", "?")
-                ctx.ob("remove", "handle_prune: iterates every PRUNE entry", any(x[0] == "arg" and x[2] == "prune_data" for x in mir.walk(src)), c.loc(), render(src)[:120])
+                ctx.ob("remove", "handle_prune: iterates every PRUNE entry", any(gs.is_arg(x, gs.arg_of_type(body, r"^std::vec::Vec<\(topic::TopicHash")) for x in mir.walk(src)), c.loc(), render(src)[:120])
                 lib.expect_count(ctx, "remove", "handle_prune: the PRUNE loop is always entered", body, [0], body.return_blocks(), [head], (1, lib.INF), "loop head on every path") if head is not None else None
             else:
                 # the list iterated is filled once per Unsubscribe action with (source, topic)
@@ -433,7 +452,7 @@ def check(ctx):
                     got = lib.count_range(body, [unsub[0][1]], [sub_head], lib.bbs(pushes)) if sub_head is not None else None
                     pe = body.site_expr(pushes[0])[2][1]
                     r = render(gs.expand(body, pe))
-                    ctx.ob("remove", "handle_received_subscriptions: every Unsubscribe is queued for mesh removal", got == (1, 1) and "propagation_source" in r and ".topic_hash" in r, pushes[0].loc(),
+                    ctx.ob("remove", "handle_received_subscriptions: every Unsubscribe is queued for mesh removal", got == (1, 1) and any(gs.is_arg(x, gs.arg_of_type(body, r"^&libp2p_identity::PeerId$")) for x in mir.walk(gs.expand(body, pe))) and ".topic_hash" in r, pushes[0].loc(),
                            "unsubscribed_peers.push((source, topic)) on the Unsubscribe arm: %s" % (got,))
                     exits = [t for t in body.succ[body.blocks[sub_head]["term"]["t"]] if t not in gs.some_edge_targets(body, sub_head)] if sub_head is not None else []
                     ctx.ob("remove", "handle_received_subscriptions: the removal loop follows the subscription loop on every path", bool(exits) and head is not None and body.must_pass_nodes(exits, body.return_blocks(), [head]),
